@@ -96,7 +96,7 @@ class SymCtx(BaseCtx):
         import z3
         from vf.engine import scalars as S
         iv = z3.Int(name)
-        v = S.SR.atom(z3.ToReal(iv))
+        v = S.int_atom(iv)
         if name not in self.inputs:
             self.inputs[name] = (v, lo, hi)
         self.int_inputs.add(name)
@@ -110,6 +110,11 @@ class SymCtx(BaseCtx):
     def arr(self, name, n, lo=-1000.0, hi=1000.0):
         from vf.engine.symarr import SymArr
         return SymArr([self.real('%s[%d]' % (name, i), lo, hi) for i in range(n)])
+
+    def iarr(self, name, n, lo=-100, hi=100):
+        """integer-dtype record (kind 'i': NumPy's integer semantics are modelled, incl. truncating stores)."""
+        from vf.engine.symarr import SymArr
+        return SymArr([self.integer('%s[%d]' % (name, i), lo, hi) for i in range(n)], kind='i')
 
     def assume(self, cond):
         self.eng.assume(cond)
@@ -227,6 +232,9 @@ class ConcCtx(BaseCtx):
 
     def arr(self, name, n, lo=-1000.0, hi=1000.0):
         return np.array([self.real('%s[%d]' % (name, i), lo, hi) for i in range(n)], dtype=float)
+
+    def iarr(self, name, n, lo=-100, hi=100):
+        return np.array([self.integer('%s[%d]' % (name, i), lo, hi) for i in range(n)], dtype=np.int64)
 
     def assume(self, cond):
         if not cond:
@@ -735,7 +743,9 @@ def _obs_close(a, b, rtol=1e-8):
         scale = max(nums) if nums else 1.0
         for x, y in zip(flat_a, flat_b):
             if isinstance(x, (int, float)) and isinstance(y, (int, float)) and not isinstance(x, bool):
-                if not abs(x - y) <= rtol * max(scale, 1e-300) + 1e-300:
+                # relative to the largest observed magnitude, with an absolute floor (values that are zero up to
+                # rounding, e.g. a sinusoid sampled at a node, differ by 1e-14 between the two evaluation orders)
+                if not abs(x - y) <= rtol * max(scale, 1e-300) + 1e-9:
                     return False
             elif x != y:
                 return False
